@@ -17,7 +17,7 @@ NPROC = 16
 ALLOWED_AXIOMS = []          # nothing: every theorem must be closed under the global context
 FORBIDDEN = r'\b(Admitted|admit|Axiom|Axioms|Parameter|Parameters|Conjecture|Conjectures)\b|Unset\s+Guard|bypass_check|Admit\s+Obligations|type-in-type|impredicative-set|Unset\s+Universe\s+Checking|Unset\s+Positivity'
 
-ENV = dict(os.environ, CARGO_NET_OFFLINE='true', CARGO_TARGET_DIR=CARGO_TARGET)
+ENV = dict(os.environ, CARGO_NET_OFFLINE='true', CARGO_TARGET_DIR=CARGO_TARGET, BEDV_SCRATCH=VERIF + '/run/scratch-%d' % os.getpid())
 
 
 class Lock:
@@ -206,6 +206,33 @@ def run_side(binary, cases, timeout=900, shards=NPROC):
     return results
 
 
+def judge(prop, texts, impls, models):
+    """per case: True = the implementation's output is NOT accepted.
+    1. canonical equality with the model output (or prop.agree);
+    2. for properties with an outcome-level oracle (prop.oracle_line): the oracle, extracted from Coq, is
+       evaluated by the model runner on the implementation's actual output; it decides the cases the property
+       leaves under-determined (oracle-only cases, or sequences that differ only by an unspecified tie order)."""
+    bad = []
+    for t, a, b in zip(texts, impls, models):
+        if 'glue-error' in b or b.startswith('(abort'):
+            bad.append(True)
+        elif hasattr(prop, 'agree'):
+            bad.append(not prop.agree(t, a, b))
+        else:
+            bad.append(prop.canon(t, a) != prop.canon(t, b))
+    if hasattr(prop, 'oracle_line'):
+        idxs, lines = [], []
+        for i, (t, a, b) in enumerate(zip(texts, impls, models)):
+            l = prop.oracle_line(t, a, b, bad[i])
+            if l is not None:
+                idxs.append(i); lines.append(l)
+        if lines:
+            vs = run_side(RUNNER, lines)
+            for i, v in zip(idxs, vs):
+                bad[i] = (v.strip() != '(verdict 1)')
+    return bad
+
+
 class Case:
     __slots__ = ('text', 'nontrivial', 'cls')
     def __init__(self, text, nontrivial=True, cls='random'):
@@ -302,6 +329,7 @@ def main(prop, argv):
         rc = _main(prop, pid, tier, seed, replay, rundir, t0)
     finally:
         shutil.rmtree(rundir, ignore_errors=True)
+        shutil.rmtree(ENV['BEDV_SCRATCH'], ignore_errors=True)
     sys.exit(rc)
 
 
@@ -352,15 +380,14 @@ def _main(prop, pid, tier, seed, replay, rundir, t0):
     mism = []
     dist = {}
     nontriv = set()
+    verdicts = judge(prop, texts, impl, model)
     for i, c in enumerate(cases):
         dist[c.cls.split(':')[0]] = dist.get(c.cls.split(':')[0], 0) + 1
         if c.nontrivial:
             nontriv.add(hashlib.sha1(c.text.encode()).digest())
-        ci, cm = prop.canon(c.text, impl[i]), prop.canon(c.text, model[i])
         if 'glue-error' in model[i] or model[i].startswith('(abort'):
             notes.append('model runner problem on case %d: %s' % (i, model[i][:200]))
-            mism.append(i)
-        elif (not prop.agree(c.text, impl[i], model[i])) if hasattr(prop, 'agree') else (ci != cm):
+        if verdicts[i]:
             mism.append(i)
     if replay:
         for i, c in enumerate(cases):
@@ -383,7 +410,7 @@ def _main(prop, pid, tier, seed, replay, rundir, t0):
             b = run_side(RUNNER, [t], shards=1)[0]
             if 'glue-error' in a or 'glue-error' in b:
                 return False
-            return (not prop.agree(t, a, b)) if hasattr(prop, 'agree') else (prop.canon(t, a) != prop.canon(t, b))
+            return judge(prop, [t], [a], [b])[0]
         small = c.text
         if not replay:
             try:
